@@ -251,7 +251,7 @@ def run_check(pid, tier):
         cov.pop('obligations'); cov.pop('discharged')
     ev = {'property_id': pid, 'tier': tier, 'seed': seed, 'level': 'proof', 'coverage': cov,
           'assumptions': getattr(prop, 'ASSUMPTIONS', []), 'wall_s': round(wall, 2), 'violations': violations}
-    core.write_json(os.path.join(core.HOME, 'evidence', '%s.json' % pid), ev)
+    core.write_json(os.path.join(core.OUT, 'evidence', '%s.json' % pid), ev)
     for l in out_lines:
         print(l)
     print('%s %s: %d cases, %d non-trivial distinct, %d/%d obligations, %d disagreements, %d violations, %.1fs'
